@@ -150,6 +150,12 @@ def check(case, ctx):
                              [bool(oa.nterm_mods), bool(oa.cterm_mods)], call=call, output=out)
                 if bool(oa.labile_mods) != bool(P.get('labile')):
                     ctx.fail('labile-shift-placement', bool(P.get('labile')), bool(oa.labile_mods), call=call, output=out)
+            # the charge state and its adducts are carried over unchanged
+            want_adducts = P.get('adducts')
+            got_adducts = oa.charge_adducts[0].val if oa.charge_adducts else None
+            if oa.charge != P.get('charge') or got_adducts != want_adducts:
+                ctx.fail('charge-or-adducts-changed', [P.get('charge'), want_adducts], [oa.charge, got_adducts], call=call,
+                         output=out)
             if not any_mod and P.get('charge') is None and out != s:
                 ctx.fail('unmodified-not-unchanged', s, out, call=call)
             if plus and any(is_num(m.val) and m.val > 0 for m in vals) and '[+' not in out and '{+' not in out:
